@@ -597,13 +597,21 @@ def monC14 (c : ImplCase) : List String :=
     -- the two sizes in force (a successful `set_config` replaces them)
     let mut wbuf := c.cfg.wbuf
     let mut maxw := c.cfg.maxw
+    let mut dead := false
     for o in ops do
-      if live then
+      -- a write or flush that returned Ok and ended with a successful transport flush has sent
+      -- everything, the automatic replies included (the bound holds the largest frame): the
+      -- accounting can start again from zero
+      if isOp o "setcfg" then
+        match o.newCfg, o.res with
+        | some nc, "ok" :: _ => wbuf := nc.wbuf; maxw := nc.maxw
+        | _, _ => live := false; dead := true
+      else if !live && !dead && maxw ≥ largestFrame c && (isOp o "flush" || isOp o "write") && o.res == ["ok", "unit"]
+          && o.io.getLast? == some "f:o" then
+        live := true
+        unsent := 0
+      else if live then
         match o.body with
-        | "setcfg" :: _ =>
-          match o.newCfg, o.res with
-          | some nc, "ok" :: _ => wbuf := nc.wbuf; maxw := nc.maxw
-          | _, _ => live := false
         | "write" :: kind :: h :: _ =>
           if o.isSend then live := false
           else if kind == "text" || kind == "binary" || kind == "ping" then
